@@ -3,6 +3,7 @@ package consnet
 import (
 	"fmt"
 	"os"
+	"sort"
 	"time"
 
 	"verif/core"
@@ -84,5 +85,7 @@ func Product(cfgs []Scenario, menuFor func(cfg Scenario) []Rule, d int) []*Scena
 			out = append(out, &c)
 		}
 	}
+	// fewest deviations first: a budget cut keeps the lower bounds complete
+	sort.SliceStable(out, func(i, j int) bool { return len(out[i].Rules) < len(out[j].Rules) })
 	return out
 }
